@@ -125,6 +125,91 @@ theorem scalingAxis_spec (chLast : Bool) (sa : AxisSpec) (len d : ℕ) (hd : d <
     · simp only [if_true, List.mem_range]
       omega
 
+/-! ### the (axis, elements_per_scale) pairs in ascending order (`sorted(zip(..))` in `_validate_axis_and_eps`) -/
+
+/-- `pairLe` as a relation -/
+def PairLe (p q : ℕ × ℕ) : Prop := pairLe p q = true
+
+instance : DecidableRel PairLe := fun p q => inferInstanceAs (Decidable (pairLe p q = true))
+
+theorem pairLe_iff (p q : ℕ × ℕ) : PairLe p q ↔ p.1 < q.1 ∨ (p.1 = q.1 ∧ p.2 ≤ q.2) := by
+  simp [PairLe, pairLe]
+
+instance : Std.Total PairLe := ⟨fun p q => by rw [pairLe_iff, pairLe_iff]; omega⟩
+instance : IsTrans (ℕ × ℕ) PairLe := ⟨fun p q r => by rw [pairLe_iff, pairLe_iff, pairLe_iff]; omega⟩
+
+theorem PairLe.antisymm {p q : ℕ × ℕ} (h : PairLe p q) (h' : PairLe q p) : p = q := by
+  rw [pairLe_iff] at h h'
+  exact Prod.ext (by omega) (by omega)
+
+/-- the model's sort is insertion sort along `pairLe` -/
+theorem sortPairs_eq_insertionSort (l : List (ℕ × ℕ)) : sortPairs l = l.insertionSort PairLe := by
+  have hi : ∀ (p : ℕ × ℕ) (t : List (ℕ × ℕ)), insertPair p t = t.orderedInsert PairLe p := by
+    intro p t
+    induction t with
+    | nil => rfl
+    | cons q qs ih =>
+      by_cases h : pairLe p q = true
+      · rw [insertPair, if_pos h, List.orderedInsert_cons, if_pos (show PairLe p q from h)]
+      · rw [insertPair, if_neg h, List.orderedInsert_cons, if_neg (show ¬ PairLe p q from h), ih]
+  induction l with
+  | nil => rfl
+  | cons p ps ih => simp only [sortPairs, List.insertionSort_cons, ih, hi]
+
+/-- sorting only re-orders the pairs -/
+theorem sortPairs_perm (l : List (ℕ × ℕ)) : (sortPairs l).Perm l := by
+  rw [sortPairs_eq_insertionSort]; exact List.perm_insertionSort _ _
+
+/-- the result is ascending (lexicographically; in particular the axes ascend) -/
+theorem sortPairs_pairwise (l : List (ℕ × ℕ)) : (sortPairs l).Pairwise PairLe := by
+  rw [sortPairs_eq_insertionSort]; exact List.pairwise_insertionSort _ _
+
+theorem sortPairs_axes_ascending (l : List (ℕ × ℕ)) : ((sortPairs l).map (·.1)).Pairwise (· ≤ ·) := by
+  rw [List.pairwise_map]
+  refine (sortPairs_pairwise l).imp ?_
+  intro p q h
+  rw [pairLe_iff] at h
+  omega
+
+/-- THE point: the sorted pairs depend on the SET (multiset) of pairs only, not on the order they are listed in -/
+theorem sortPairs_eq_of_perm {l₁ l₂ : List (ℕ × ℕ)} (h : l₁.Perm l₂) : sortPairs l₁ = sortPairs l₂ :=
+  List.Perm.eq_of_pairwise (fun _ _ _ _ => PairLe.antisymm) (sortPairs_pairwise l₁) (sortPairs_pairwise l₂)
+    ((sortPairs_perm l₁).trans (h.trans (sortPairs_perm l₂).symm))
+
+/-- an ascending spelling is left as it is (so nothing changed for the configurations that used to work) -/
+theorem sortPairs_of_pairwise {l : List (ℕ × ℕ)} (h : l.Pairwise PairLe) : sortPairs l = l := by
+  rw [sortPairs_eq_insertionSort]; exact List.Pairwise.insertionSort_eq h
+
+/-- strictly ascending axes: already sorted -/
+theorem sortPairs_of_axes_ascending {l : List (ℕ × ℕ)} (h : (l.map (·.1)).Pairwise (· < ·)) : sortPairs l = l := by
+  apply sortPairs_of_pairwise
+  rw [List.pairwise_map] at h
+  refine h.imp ?_
+  intro p q hpq
+  rw [pairLe_iff]; exact Or.inl hpq
+
+theorem zip_map_fst_snd (ps : List (ℕ × ℕ)) : (ps.map (·.1)).zip (ps.map (·.2)) = ps := by
+  induction ps with
+  | nil => rfl
+  | cons p t ih => simp [ih]
+
+theorem zip_replicate_eq_map (l : List ℕ) (e : ℕ) : l.zip (List.replicate l.length e) = l.map fun a => (a, e) := by
+  induction l with
+  | nil => rfl
+  | cons a t ih => simp [List.replicate_succ, ih]
+
+/-- `_validate_axis_and_eps` on two listings of the same (axis, elements) pairs: same verdict, same result -/
+theorem validateAxisEps_perm (shape : List ℕ) {ps qs : List (ℕ × ℕ)} (h : ps.Perm qs) :
+    validateAxisEps shape (.many (ps.map (·.1))) (.many (ps.map (·.2)))
+      = validateAxisEps shape (.many (qs.map (·.1))) (.many (qs.map (·.2))) := by
+  simp only [validateAxisEps, List.length_map, zip_map_fst_snd, ne_eq, not_true_eq_false, if_false,
+    sortPairs_eq_of_perm h, h.all_eq]
+
+/-- … and with ONE `elements_per_scale` for all listed axes -/
+theorem validateAxisEps_perm_int (shape : List ℕ) {l l' : List ℕ} (h : l.Perm l') (e : ℕ) :
+    validateAxisEps shape (.many l) (.one e) = validateAxisEps shape (.many l') (.one e) := by
+  simp only [validateAxisEps, zip_replicate_eq_map, h.all_eq, sortPairs_eq_of_perm (h.map fun a => (a, e))]
+
 /-! ### groups -/
 
 /-- scales produced by mapping a group statistic over consumer keys are constant on equal keys -/
